@@ -16,7 +16,7 @@ from vlib import symres
 
 PROP = "C02"
 META = {
-    "ready": False,
+    "ready": True,
     "level": "model_checking",
     "technique": "TLA+ decision-procedure spec (declarative ELF rule vs operational model of wild's resolution phases) exhaustively checked by TLC; every enumerated configuration replayed into the real linker and compared by identity words, with GNU ld and lld as cross-oracles",
     "level_text": "TLC enumerates the full product of file kinds (object, archive member, whole-archive member, shared, as-needed shared) x definition kinds (none, undefined, weak undefined, weak, strong, common 4/8, GNU unique) x visibilities for two files and one name (and three files in the thorough tier), with and without --allow-multiple-definition; for each configuration the rule's prediction (binding of every reference by (file, name), error class) is compared with what the real wild produced.",
@@ -39,7 +39,7 @@ def oracle_known(info):
 
 
 def run(ctx):
-    plan = [("mc/SymRes_c02_quick.cfg", 900, 16 if ctx.quick else 1), ("mc/SymRes_c02_dup.cfg", 600, 4 if ctx.quick else 1)]
+    plan = [("mc/SymRes_c02_quick.cfg", 900, 24 if ctx.quick else 1), ("mc/SymRes_c02_dup.cfg", 600, 6 if ctx.quick else 1)]
     if not ctx.quick:
         plan.append(("mc/SymRes_c02_triple.cfg", 2400, 1))
     cov = symres.run_plan(ctx, PROP, plan, ASPECTS, "both", oracle_known, skip_load_divergent=OWN)
